@@ -158,8 +158,10 @@ RCP<const Basic> conjugate(const RCP<const Basic> &arg)
     if (is_a<Mul>(*arg)) {
         const map_basic_basic &dict = down_cast<const Mul &>(*arg).get_dict();
         map_basic_basic new_dict;
-        RCP<const Number> coef = rcp_static_cast<const Number>(
-            conjugate(down_cast<const Mul &>(*arg).get_coef()));
+        RCP<const Number> coef = down_cast<const Mul &>(*arg).get_coef();
+        // conjugate(zoo) stays an unevaluated Conjugate node, not a Number
+        if (not eq(*coef, *ComplexInf))
+            coef = rcp_static_cast<const Number>(conjugate(coef));
         for (const auto &p : dict) {
             if (is_a<Integer>(*p.second)) {
                 Mul::dict_add_term_new(outArg(coef), new_dict, p.second,
